@@ -24,6 +24,62 @@ CHECKS = {
          "Held on every execution observed: for 30 families x 3 forms x sizes 16..2048 (quick) / 4096 (thorough) the number of parse-function invocations stayed linear (local exponent <= 2.5, never above the quadratic cap) and CPU time showed no super-quadratic growth.",
          "Observational bound over families, not all inputs. W sees only the memoised parse functions; the rest is covered by CPU time, judged only above 300 ms.",
          "DESIGN.md section 4, C17"),
+ "C01": ("runtime monitor: the harness drives evaluator::step under a step budget on every accepted program and classifies the stuck redex by walking the evaluation context",
+         "Held on every execution observed: every program accepted by the front end among generated explicit/inferred programs, their single-point perturbations and the corpus was stepped up to 4000 (quick) / 20000 (thorough) steps; no run ended in a stuck term other than a division by literal zero, except the two recorded findings (unfilled source hole; hole identity lost in substitution), which are attributed narrowly (pointer identity with parse-created cells; hook counters at the unresolved arms of open/signed_shift, inferred programs only).",
+         "No reference model is involved. evaluate() and `gram run` are cross-checked against the driven loop on short runs.",
+         "DESIGN.md section 4, C01"),
+ "C02": ("runtime monitor: differential against an environment-based call-by-value reference interpreter on the source AST, plus an exhaustive operator x operand table and planted effects",
+         "Held on every execution observed: gram's value equals the reference interpreter's on generated programs (ground values exactly, functions by reference conversion between program and value), on all 9 operators x 17 x 17 operands up to +-(2^200+12345), and division by zero appears exactly where call-by-value evaluation reaches it (8 placements).",
+         "R-eval (harness/src/reval.rs) is the semantics of DESIGN.md A.7; gram's step budget is 20 x reference reductions + 200 (logical, not wall clock).",
+         "DESIGN.md section 4, C02"),
+ "C03": ("runtime monitor: an independent NbE type checker (R-core) judges every elaborated (term, type) pair; ill-typed perturbations must be rejected",
+         "Held on every execution observed: each pair returned by type_check on explicit, inferred, perturbed and corpus programs was re-checked by R-core (scoping, typing, reported type); every explicit program R-core judges ill-typed was rejected with a diagnostic. Violations on programs with holes whose check passed an unresolved hole through open/signed_shift (hook counters) are the recorded finding.",
+         "R-core implements DESIGN.md A.5/A.6 with named closures (no de Bruijn arithmetic); reference fuel exhaustion is inconclusive.",
+         "DESIGN.md section 4, C03"),
+ "C04": ("runtime monitor: head-shape table and full reference re-check of the evaluated value against the reported type",
+         "Held on every execution observed: for accepted programs that produced a value, the value's head matches the weak-head form of the reported type and R-core infers for the value a type convertible to the reported one.",
+         "R-core is the typing reference; programs that do not produce a value within the step budget are not judged.",
+         "DESIGN.md section 4, C04"),
+ "C05": ("runtime monitor: reference verdict and intended type on type-directed explicit programs versus gram's; exact structural diff of parse output and elaborated term",
+         "Held on every execution observed: every generated fully annotated program that R-core accepts was accepted by gram with a type convertible both to R-core's and to the generator's intended type; for every accepted program the elaborated term equals the parsed term except where the source had a hole or omitted annotation. A worker death on an explicit program counts as a violation.",
+         "Two independent expectations (R-core, generator). Syntactic rejections of a printed program are not this property's subject and are counted as inconclusive (0 observed).",
+         "DESIGN.md section 4, C05"),
+ "C06": ("runtime monitor: evaluator trace from the harness's step loop versus normalize_weak_head/unify; symmetry; agreement with reference normal forms",
+         "Held on every execution observed: unify(t,t); unify(t, reduct) in both directions for the first 30 reducts; whnf of ground programs equals the evaluated literal; unify(a,b)=unify(b,a)=equality of R-core normal forms on pairs of same-typed hole-free terms.",
+         "Hole-free terms only; non-normalising pairs are skipped by construction or inconclusive on the watchdog.",
+         "DESIGN.md section 4, C06"),
+ "C07": ("runtime monitor: differential against an independent chart parser that reads grammar.y at run time (accept/reject, derivation count, left-associated tree)",
+         "Held on every execution observed: all token sequences of <=4 (quick) / <=5 (thorough) tokens over the 28 terminals, the systematic chain x parenthesisation matrix (24k sentences), random sentences up to 80 tokens and their single-token mutants: parse accepts exactly the sentences, no sentence has two derivations, and the AST equals the left-associated derivation.",
+         "AST-of-derivation table is DESIGN.md A.3; a parenthesised group in body position is compared modulo gram's merge. Exhaustive within the enumerated lengths only.",
+         "DESIGN.md section 4, C07"),
+ "C08": ("runtime monitor: differential against a named-scope resolver on the source AST; unbind/rebind perturbations must yield the right diagnostic",
+         "Held on every execution observed: parse() output indices equal the reference resolver's on random well-scoped programs (nesting, sibling reuse, groups with forward references, `_`, non-empty context); every perturbation that unbinds or re-binds a name is rejected with a diagnostic of the right category naming the identifier.",
+         "Scoping rules are DESIGN.md A.4; for rejected programs the expected diagnostics must be among those reported.",
+         "DESIGN.md section 4, C08"),
+ "C11": ("runtime monitor: differential against capture-avoiding operations on named terms plus algebraic laws, exhaustive over small terms",
+         "Held on every execution observed: signed_shift, unsigned_shift, open and free_variables agree with the named reference and satisfy the laws on every hole-free term of <=4 (quick) / <=5 (thorough) nodes over all formers, on all groups of 2 and 3 definitions with atomic parts, for cutoffs/indices 0-3, amounts -3..3 and 20 inserted terms, and on random terms up to 200 nodes.",
+         "Hole-free terms only, as the property states.",
+         "DESIGN.md section 4, C11"),
+ "C12": ("runtime monitor: inspection of hole cells after unify() on constructed (pattern, instance) pairs: cycles, scope of solutions, reference conversion of the filled-in terms",
+         "Held on every execution observed: after every successful unification no cell is reachable from its own content, every solution is closed with respect to the scope its hole was written in, and the two terms with solutions filled in are convertible for R-core; failures of the last kind on pairs whose unification passed an unresolved hole through open/signed_shift are the recorded finding.",
+         "Only successes are judged. Base terms are generated without recursive definitions (unify legitimately diverges on them once a hole defeats the syntactic shortcut).",
+         "DESIGN.md section 4, C12"),
+ "C15": ("runtime monitor: specification listing (R-listing) differential, fault injection with spans known from the printer, range => re-parse round trip of every node",
+         "Held on every execution observed: listing() equals the specified excerpt on random (text, range) pairs; injected unbound names, re-bound binders and stray symbols are marked exactly; every node range of parsed programs re-parses in its scope to the same subterm, except the recorded finding about ranges that start or end inside the parentheses of a re-associated chain.",
+         "Characters are Unicode scalar values; type-fault spans are covered through the node-range check rather than per diagnostic.",
+         "DESIGN.md section 4, C15"),
+ "C16": ("runtime monitor: round trip parse -> Display -> parse with exact structural equality, exhaustive (parent, position, child) former matrix",
+         "Held on every execution observed: every (parent former, operand position) x child former combination (41 x 38 x 3 fillers) and random well-scoped programs print to text that reads back to the same term, except the recorded finding (non-dependent implicit function type printed `{A} -> B`).",
+         "Holes compared by position only; names of unused function-type parameters ignored.",
+         "DESIGN.md section 4, C16"),
+ "C18": ("runtime monitor: differential between type_check/normalize/unify under a peeled context and the closed program, with deep context snapshots before and after every call",
+         "Held on every execution observed: verdicts agree, types are convertible for R-core once the peeled parameters are instantiated, normalisation under the context preserves meaning, unify agrees with the closed wrappers, and both contexts are identical (length, offsets, Rc identity, structure) after accepted and rejected calls.",
+         "Contexts are built from explicit (hole-free) programs.",
+         "DESIGN.md section 4, C18"),
+ "C19": ("runtime monitor: metamorphic relation between two runs of the full pipeline under meaning-preserving rewrites (no reference model)",
+         "Held on every execution observed: 10 sequences of 1-5 rewrites per program (renaming, parentheses, unused definitions, naming a subexpression, identity wrap, if-true wrap, swapping function definitions, hoisting literal arithmetic) left acceptance and printed value unchanged; changes on inferred programs whose check passed an unresolved hole through open/signed_shift are the recorded finding.",
+         "Rewrites that turn a syntactic value into a computation are not applied directly at a definition of a group (that changes which definitions are available: not meaning-preserving).",
+         "DESIGN.md section 4, C19"),
 }
 REASON_PENDING = "check not built yet in this revision of the framework (planned; see DESIGN.md section 8)"
 def main():
